@@ -523,6 +523,18 @@ func (w *worker) run(cs Case) (res result) {
 			d["crashed"] = frozen
 			add(clause, state, d)
 		})
+		if cs.Wave == "reconcile" && ri == 1 && !frozen {
+			// the reconcile-only cycle (scan disabled by the sticky listing failure, nothing
+			// left to migrate) ran ReconcileOrphanedFiles to its end: "once ... orphan
+			// reconciliation has finished, queries see each row exactly once" applies now,
+			// before any later scan could re-register the orphan and migrate it again
+			cnt("reconcile_only_cycles_judged", 1)
+			for _, s := range states {
+				if s.Meta == "cold" && s.Hot == "full" && s.Cold == "full" {
+					add("file still complete in both tiers (rows visible twice) after the orphan reconciliation pass finished", s.class(), map[string]any{"file": s, "cycle": ri})
+				}
+			}
+		}
 	}
 	lap("faulted")
 
